@@ -736,7 +736,10 @@ func (env *Env) call(n *ast.CallExpr) TV {
 		return TV{T: eq(c.Get(env.st, "$held"), c.Get(env.old, "$held")), Ty: boolT}
 	case "bound": // bound(x): interface value x was loaded from the file field of a fidRef
 		v := env.eval(n.Args[0])
-		if _, ok := env.e.prov[v.T]; ok {
+		if r, ok := env.e.prov[v.T]; ok {
+			if env.e.provGhost[r] {
+				return TV{T: "(not (= " + r + " 0))", Ty: boolT}
+			}
 			return TV{T: "true", Ty: boolT}
 		}
 		return TV{T: "false", Ty: boolT}
